@@ -17,7 +17,9 @@ def c01(tier, seed):
 
 
 def c03(tier, seed):
-    return cc.codec_check('C03', tier, seed, ['der'], ['DER'], ['enc'], numerics='0')
+    return cc.codec_check('C03', tier, seed, ['der'], ['DER'], ['enc'], numerics='0',
+                          fixtures={'quick': (['tests/test_der.py'], 'not rfc5280 and not performance'),
+                                    'thorough': (['tests/test_der.py', 'tests/test_codecs_consistency.py'], None)})
 
 
 def c16(tier, seed):
@@ -25,11 +27,15 @@ def c16(tier, seed):
 
 
 def c05(tier, seed):
-    return cc.codec_check('C05', tier, seed, ['per', 'uper'], ['PER'], ['enc', 'dec'], numerics='0')
+    return cc.codec_check('C05', tier, seed, ['per', 'uper'], ['PER'], ['enc', 'dec'], numerics='0',
+                          fixtures={'quick': (['tests/test_uper.py', 'tests/test_per.py'], 'x691 or foo or sequence or choice or integer or enumerated or string'),
+                                    'thorough': (['tests/test_uper.py', 'tests/test_per.py', 'tests/test_codecs_consistency.py'], None)})
 
 
 def c06(tier, seed):
-    return cc.codec_check('C06', tier, seed, ['oer'], ['OER'], ['enc', 'dec'], numerics='0')
+    return cc.codec_check('C06', tier, seed, ['oer'], ['OER'], ['enc', 'dec'], numerics='0',
+                          fixtures={'quick': (['tests/test_oer.py'], 'not c_source and not ieee1609'),
+                                    'thorough': (['tests/test_oer.py', 'tests/test_codecs_consistency.py'], 'not c_source')})
 
 
 REPLAYERS = {}
